@@ -66,7 +66,7 @@ fn gen_secret(rng: &mut Rng) -> String {
     }
 }
 
-/// payload JSON text and whether its time claims admit now (None = a claim is not a JSON number: the statement is silent)
+/// payload JSON text and whether its time claims admit now (a claim that is present but not a JSON number admits nothing)
 fn gen_payload(rng: &mut Rng, t: u64) -> (String, Option<bool>) {
     let mut m = serde_json::Map::new();
     m.insert("sub".into(), json!(rng.unicode_string(8)));
@@ -86,14 +86,13 @@ fn gen_payload(rng: &mut Rng, t: u64) -> (String, Option<bool>) {
             0 | 1 | 2 | 3 => json!(at),
             4 => json!(at as f64 + 0.5),
             5 => json!(-(at.abs())), // a negative NumericDate: long ago
-            6 => json!(at.to_string()), // not a number
+            // not a number: such a claim cannot admit any time (RFC 7519: these claims MUST be NumericDate values) - whatever it "looks like"
+            6 => { let far = t as i64 + 100_000; match rng.below(6) { 0 => json!(at.to_string()), 1 => Value::Null, 2 => json!(true), 3 => json!([far]), 4 => json!({"t": far}), _ => json!(far.to_string()) } }
             _ => json!(at as f64),
         };
         let numeric = v.as_f64();
         match numeric {
-            None => {
-                if admits.is_some() { admits = None }
-            }
+            None => admits = Some(false),
             Some(x) => {
                 let in_past = if x < 0.0 { true } else { past };
                 let ok = match claim {
